@@ -674,8 +674,16 @@ pub fn gen_c10(rng: &mut Rng) -> Value {
         // a torn tail (crash in the middle of the last append, possibly inside a multi-byte character): listing and
         // lookup must still agree with each other, entry by entry
         let nk = sc["keys"].as_array().map(|a| a.len()).unwrap_or(1);
+        let sc_keys: Vec<Value> = sc["keys"].as_array().cloned().unwrap_or_default();
         if let Some(steps) = sc["steps"].as_array_mut() {
-            steps.push(json!({"k":"env","act":"truncate_frac","bucket":rng.idx(nk),"num":rng.range(700, 999)}));
+            if rng.chance(1, 3) {
+                // or: a foreign record with a valid checksum whose integrity text is not an integrity value
+                let ki = rng.idx(nk);
+                let key = sc_keys[ki].clone();
+                steps.push(json!({"k":"env","act":"append_record","bucket":ki,"rec":{"key":key,"integrity":*rng.pick(&["md5-1B2M2Y8AsgTpgAmY7PhCfg==", "garbage", "sha256"]),"time":1,"size":0,"metadata":null,"raw_metadata":null}}));
+            } else {
+                steps.push(json!({"k":"env","act":"truncate_frac","bucket":rng.idx(nk),"num":rng.range(700, 999)}));
+            }
             for f in PURE {
                 steps.push(json!({"k":"audit","bin":f.0,"mode":f.1,"what":["metadata","list"]}));
             }
